@@ -18,7 +18,7 @@ EXPLANATION = (
     "C03.R: each owner's Drop releases exactly its field-described range and its storage field has no drop glue. C03.F (finishers): forget/finish/assume_init of a builder or iterator "
     "happen only where the owner is provably complete - position == N under the dominating facts, or after a full traversal of the owner's storage by a protocol closure. "
     "C03.S: every drop-suppression site (ManuallyDrop::new / mem::forget of a value with element drop glue) in the crate belongs to one of the accounted patterns. "
-    "C03.I: the by-value iterator's next/next_back duplicate exactly the slot their index update excludes and nth/nth_back destroy exactly the skipped range of the iterator's own storage (rules shared with C06). C03.A: assume_init family reinterprets the whole storage (equal symbolic sizes). Per-operation linearity composes over any chain of operations by induction.")
+    "C03.I: on every return path of the by-value iterator's next/next_back/nth/nth_back (private helpers inlined) the range claimed at entry, [index, index_back), is exactly partitioned into the ranges destroyed in place, the slots moved out to the caller and the range still claimed - at the return or at the delegation to next()/next_back(). C03.A: assume_init family reinterprets the whole storage (equal symbolic sizes). Per-operation linearity composes over any chain of operations by induction.")
 
 FINISH_KEYS = {"IntrusiveArrayBuilder<$0,$1>::finish", "ArrayBuilder<$0,$1>::assume_init"}
 
@@ -315,9 +315,7 @@ def check(ctx):
         # C03.I iterator primitives: next / next_back read exactly the slot their index update excludes, nth / nth_back destroy exactly
         # the skipped range [index, index+m) / [index_back-m, index_back) of the iterator's own storage (shared rules with C06)
         it = c06.It(ctx.db(cfg))
-        c06.check_next(ctx, cfg, it, "next")
-        c06.check_next(ctx, cfg, it, "next_back")
-        c06.check_nth(ctx, cfg, it, "nth")
-        c06.check_nth(ctx, cfg, it, "nth_back")
+        for nm in ("next", "next_back", "nth", "nth_back"):
+            c06.check_ownership(ctx, cfg, it, nm)
         s = check_suppression_sites(ctx, cfg)
         ctx.floor("C03.S", "drop-suppression sites (%s)" % cfg, s, 14)
